@@ -21,6 +21,7 @@ import (
 	"github.com/libp2p/go-libp2p-kad-dht/internal/vmc/jds"
 	"github.com/libp2p/go-libp2p-kad-dht/internal/vmc/kid"
 	"github.com/libp2p/go-libp2p-kad-dht/internal/vmc/sim"
+	"github.com/libp2p/go-libp2p-kad-dht/internal/vmc/vrand"
 	pb "github.com/libp2p/go-libp2p-kad-dht/pb"
 	"github.com/libp2p/go-libp2p-kad-dht/provider/keystore"
 )
@@ -101,6 +102,8 @@ func c14pLeaks() []string {
 
 func c14pRun(x *vmc.X, cfg vmc.Cfg) {
 	c := cfg.Data.(c14pcfg)
+	vrand.Hook = vrand.Seeded(1) // the keys of the prefix-length measurement: the same in every execution and replay
+	defer func() { vrand.Hook = nil }()
 	self := kid.Peer("0110", 9)
 	s := vmc.NewSched(x)
 	s.Filter = func(string) bool { return false } // set-up runs through
